@@ -43,7 +43,7 @@ theorem bits_sound_run (s0 : St) (h0 : InitLike s0) (evs : List Ev) (hop : ∀ e
 fine on disk bad: the client never overwrites verified data with anything but verified data. -/
 theorem disk_never_regresses (s : St) (p : Parked) (kn : Nat → Bool) (op : Op) (hop : op.isMutate = false)
     (h : Sound0 s) (i : Nat) (hi : s.diskOKi i = true) : (step s p kn op).1.st.diskOKi i = true :=
-  diskOKi_mono (step_adv s p kn op hop h).bad i hi
+  diskOKi_mono (step_adv s p kn op hop h).cfg (step_adv s p kn op hop h).bad i hi
 
 /-- **bits_sound_with_mutations.** Files may be deleted or restored (not corrupted) behind the stopped
 client's back at any point of the history: whenever the torrent is then downloading or seeding, every
@@ -137,7 +137,41 @@ theorem reported_only_verified_run (s0 : St) (h0 : InitLike s0) (evs : List Ev) 
   have h := step_havesOK _ _ e.known e.op (drun_sound0 evs (s0, none) h0.sound.zero) o ho i hi
   refine ⟨h, ?_⟩
   unfold dstep
-  exact diskOKi_mono ((reconcile_adv _ _).trans (reconcileIdl_adv _ _)).bad i h
+  exact diskOKi_mono ((reconcile_adv _ _).trans (reconcileIdl_adv _ _)).cfg ((reconcile_adv _ _).trans (reconcileIdl_adv _ _)).bad i h
+
+/-- **bad_padding_piece_never_done.** A piece that lies entirely inside BEP 47 padding files and whose
+recorded SHA-1 is not the hash of zeroes (`padOK i = false`: `padOnly i` and `padHashOK[i] = false`) can
+never be verified.  From a freshly added torrent, after **any** history — every op, files deleted,
+restored or corrupted behind the client's back, any adopted choices, admissible or not —: its bit is
+not set in the bitfield nor in the resume record, the torrent is not complete and does not report
+`Seeding`. -/
+theorem bad_padding_piece_never_done (s0 : St) (h0 : InitLike s0) (evs : List Ev) (i : Nat)
+    (hi : i < s0.cfg.n) (hbad : s0.cfg.padOK i = false) :
+    bitOf (drun (s0, none) evs).1.bf i = false ∧ bitOf (drun (s0, none) evs).1.persisted i = false ∧
+    (drun (s0, none) evs).1.completed = false ∧ (drun (s0, none) evs).1.status ≠ .seeding := by
+  have h := drun_padInv evs (s0, none) h0.padInv
+  have hu : Unver (drun (s0, none) evs).1.cfg i := by rw [drun_cfg]; exact ⟨hi, hbad⟩
+  have hc := h.nc ⟨i, hu⟩
+  refine ⟨h.nobit i hu, h.nobitP i hu, hc, ?_⟩
+  unfold St.status
+  rw [hc]
+  repeat' split
+  all_goals simp_all
+
+/-- The step form, from any state that satisfies the invariant (`PadInv`: `CfgWF`, `BadWF`, one bit per
+piece, no bit for a piece that can never be verified, not complete). -/
+theorem bad_padding_piece_never_done_step (s : St) (p : Parked) (kn : Nat → Bool) (op : Op) (h : PadInv s) :
+    PadInv (step s p kn op).1.st := step_padInv s p kn op h
+
+/-- Every set bit, in every state of every history (mutations included), names a piece whose recorded
+hash is the hash of its true content. -/
+theorem bits_only_for_hashable_pieces (s0 : St) (h0 : InitLike s0) (evs : List Ev) (i : Nat)
+    (hi : i < s0.cfg.n) (hb : bitOf (drun (s0, none) evs).1.bf i = true) : s0.cfg.padOK i = true := by
+  cases hp : s0.cfg.padOK i with
+  | true => rfl
+  | false =>
+    have := (bad_padding_piece_never_done s0 h0 evs i hi hp).1
+    rw [hb] at this; cases this
 
 /-! Non-vacuity: a one-piece torrent, an honest peer, the piece is written and the bit is set. -/
 section Example
@@ -210,6 +244,54 @@ example : (step (drun (s1sa, none) evs2).1 none (kn [1, 2]) (.msg 1 (.piece 0 0 
     (step (drun (s1sa, none) evs2).1 none (kn [1, 2]) (.msg 1 (.piece 0 0 16384 true))).1.st.bf = some [true] ∧
     (step (drun (s1sa, none) evs2).1 none (kn [1, 2]) (.msg 1 (.piece 0 0 16384 true))).1.st.status = .stopped := by
   decide
+
+/-! `bad_padding_piece_never_done` is not vacuous: piece 0 is data, piece 1 is one padding file.  With a
+wrong recorded hash for piece 1 the download of piece 0 leaves the torrent `Downloading` with bitfield
+`10`, also after a stop, a restart from the resume record and a manual verification; with the right
+hash the same history ends `Seeding` with `11`. -/
+private def c2 (ok : Bool) : Cfg :=
+  { pl := 16384, plens := [16384, 16384], blocks := [[(0, 16384)], []], flens := [16384, 16384],
+    fpads := [false, true], fnames := ["t/f0", "t/.pad/16384"], padHashOK := [true, ok] }
+private def s2 (ok : Bool) : St :=
+  { cfg := c2 ok, fileExists := [false, false], known := [false, false], bad := (c2 ok).dataSects }
+private def evs4 : List Ev := evs1 ++ [
+  ⟨.stop, kn [1], [], []⟩, ⟨.start, kn [], [], []⟩, ⟨.verify, kn [], [], []⟩, ⟨.start, kn [], [], []⟩]
+
+example : (c2 false).padOnly 1 = true ∧ (c2 false).padOK 1 = false ∧ (c2 false).padOK 0 = true ∧
+    (c2 true).padOK 1 = true := by decide
+
+example : (drun (s2 false, none) evs1).1.bf = some [true, false] ∧
+    (drun (s2 false, none) evs1).1.status = .downloading ∧ (drun (s2 false, none) evs1).1.completed = false ∧
+    (drun (s2 false, none) evs4).1.bf = some [true, false] ∧
+    (drun (s2 false, none) evs4).1.persisted = some [true, false] ∧
+    (drun (s2 false, none) evs4).1.status = .downloading := by decide
+
+example : (drun (s2 true, none) evs1).1.bf = some [true, true] ∧
+    (drun (s2 true, none) evs1).1.status = .seeding ∧
+    (drun (s2 true, none) evs4).1.bf = some [true, true] ∧ (drun (s2 true, none) evs4).1.status = .seeding := by decide
+
+private theorem s2_bad : (s2 false).bad = (s2 false).cfg.dataSects := rfl
+
+private theorem s2_initLike : InitLike (s2 false) := by
+  refine ⟨?_, badWF_dataSects (s2 false) s2_bad, rfl, rfl, rfl, rfl, rfl, rfl, rfl, rfl, rfl, rfl, rfl, rfl, rfl, rfl, rfl⟩
+  intro i hi sc hsc
+  match i with
+  | 0 => simp [c2, s2] at hi
+  | 1 =>
+    have : (c2 false).sections 1 = [⟨1, 0, 16384⟩] := by decide
+    rw [show (s2 false).cfg = c2 false from rfl, this] at hsc
+    simp only [List.mem_singleton] at hsc
+    subst hsc
+    decide
+  | i + 2 =>
+    have : (c2 false).sections (i + 2) = [] := by
+      simp [Cfg.sections, Cfg.n, c2, npAll]
+    rw [show (s2 false).cfg = c2 false from rfl, this] at hsc
+    cases hsc
+
+example : ∀ evs, bitOf (drun (s2 false, none) evs).1.bf 1 = false ∧ (drun (s2 false, none) evs).1.status ≠ .seeding :=
+  fun evs => ⟨(bad_padding_piece_never_done (s2 false) s2_initLike evs 1 (by decide) (by decide)).1,
+    (bad_padding_piece_never_done (s2 false) s2_initLike evs 1 (by decide) (by decide)).2.2.2⟩
 end Example
 
 end Rain.Props.C01Loop
